@@ -251,7 +251,8 @@ func (runInfo *runInfoStruct) runLetsStmt(stmt *ast.LetsStmt) {
 		if env, ok := runInfo.rv.Interface().(*env.Env); ok {
 			rvs[i] = reflect.ValueOf(env.DeepCopy())
 		} else {
-			rvs[i] = runInfo.rv
+			// all right side values are taken before the first store: a, b = b, a
+			rvs[i] = detachValue(runInfo.rv)
 		}
 	}
 
@@ -514,7 +515,7 @@ func (runInfo *runInfoStruct) runForSliceStmt(stmt *ast.ForStmt, value reflect.V
 		if iv.Kind() == reflect.Ptr && !iv.IsNil() {
 			iv = iv.Elem()
 		}
-		runInfo.env.DefineValue(stmt.Vars[0], iv)
+		runInfo.env.DefineValue(stmt.Vars[0], detachValue(iv))
 
 		runInfo.stmt = stmt.Stmt
 		runInfo.runSingleStmt()
